@@ -124,7 +124,21 @@ class ByteInterval(Node):
     address = _IndexedAttribute[typing.Optional[int]]()(
         lambda self: self.section
     )
-    size = _IndexedAttribute[int]()(lambda self: self.section)
+    _indexed_size = _IndexedAttribute[int]()(lambda self: self.section)
+
+    @property
+    def size(self) -> int:
+        """The size of this interval in bytes."""
+        return self._indexed_size
+
+    @size.setter
+    def size(self, value: int) -> None:
+        self._indexed_size = value
+        # The contents may never be larger than the interval itself: shrinking
+        # the interval below its stored bytes truncates them.
+        contents = getattr(self, "contents", None)
+        if contents is not None and len(contents) > value:
+            self.contents = contents[:value]
 
     def __init__(
         self,
